@@ -204,6 +204,25 @@ def oracle(run, case, real):
             if t not in out2 or out2[t].data != d:
                 run.violation('second-hop:data %s outs_jpg=%r' % (t, oj), 'a frame received, edited in place (%r) and sent on arrived with data %r'
                               % (d, out2[t].data if t in out2 else None), case)
+    # the owners of writable pictures draw into them between two sends: what goes out the second time is, for every frame, the
+    # picture that frame shows NOW (an encoding cached at the first send may only belong to pixels that cannot change)
+    if not real and frames:
+        poked = 0
+        for a in sim.arrays:
+            if isinstance(a, np.ndarray) and a.flags.writeable and a.size:
+                a.flat[0] = (int(a.flat[0]) + 128) % 256
+                poked += 1
+        if poked:
+            now = {t: (f.image.copy() if f.has_image else None) for t, f in frames.items()}
+            out3 = MQ.topicmsgs2frames(MQ.frames2topicmsgs(frames, oj))
+            for t, img in now.items():
+                if img is None or t not in out3 or not out3[t].has_image:
+                    continue
+                g = out3[t].image
+                if g.shape != img.shape or not np.array_equal(g, img):
+                    run.violation('second-send:stale-picture %s outs_jpg=%r kind=%s' % (t, oj, case['kinds'].get(t)),
+                                  'after the owner drew into its writable image the frame shows %r... and what is sent decodes to %r...'
+                                  % (img.ravel()[:4].tolist(), g.ravel()[:4].tolist()), case)
     return canon
 
 def case_lit(sim, case):
